@@ -483,4 +483,45 @@ def standin_measurement_orders(tier, seed):
                 cases=cases, distinct=cases, failures=len(uniq), exhaustive=(tier != "quick"), _fails=uniq[:4])
 standin_measurement_orders.prop = "C02"
 
-STANDINS = [standin_born, standin_born_scenarios, standin_tableau_measure, standin_sampling_statistics, standin_keyed_channels, standin_sympy_conditions, standin_confusion_maps, standin_measurement_orders]
+def standin_many_level_qudits(tier, seed):
+    """qudits with more levels than an 8-bit digit holds (129, 200, 257, 300 levels) prepared in a basis state: run, simulate and the sampling
+    functions report that level, as a terminal measurement and mid-circuit, next to a qubit"""
+    import cirq
+
+    cases, fails = 0, []
+    sims = [("Simulator", lambda: cirq.Simulator(seed=1)), ("DensityMatrixSimulator", lambda: cirq.DensityMatrixSimulator(seed=1)), ("Simulator(split_untangled_states=False)", lambda: cirq.Simulator(seed=1, split_untangled_states=False))]
+    b = cirq.LineQubit(1)
+    for d, level in ((129, 128), (200, 150), (257, 256), (300, 290), (5, 4)):
+        q = cirq.LineQid(0, dimension=d)
+        prep = cirq.MatrixGate(np.roll(np.eye(d), level, axis=0), qid_shape=(d,)).on(q)
+        shapes = {"terminal": cirq.Circuit(prep, cirq.X(b), cirq.measure(q, b, key="m")),
+                  "mid-circuit": cirq.Circuit(prep, cirq.X(b), cirq.measure(q, b, key="m"), cirq.IdentityGate(qid_shape=(d,)).on(q))}
+        for (sname, mk), (cname, c) in itertools.product(sims, shapes.items()):
+            if d > 200 and sname == "DensityMatrixSimulator":
+                continue
+            cases += 1
+            args = dict(dimension=d, prepared_level=level, simulator=sname, shape=cname)
+            try:
+                got = mk().run(c, repetitions=3).measurements["m"].astype(np.int64).tolist()
+                got_sim = [int(x) for x in mk().simulate(c).measurements["m"]]
+            except Exception as ex:
+                fails.append(dict(args=args, failed="many-level-raised", clause=f"{ex!r}"))
+                continue
+            if got != [[level, 1]] * 3 or got_sim != [level, 1]:
+                fails.append(dict(args=args, failed="many-level-digit", clause=f"a {d}-level qudit prepared in level {level}: run reports {got}, simulate reports {got_sim}"))
+        cases += 1
+        vec = np.zeros(d, dtype=np.complex64)
+        vec[level] = 1
+        try:
+            got = [int(cirq.sample_state_vector(vec, [0], qid_shape=(d,), repetitions=2)[0][0]), int(cirq.sample_density_matrix(np.outer(vec, vec), [0], qid_shape=(d,), repetitions=2)[0][0])]
+        except Exception as ex:
+            fails.append(dict(args=dict(dimension=d, prepared_level=level), failed="many-level-raised", clause=f"{ex!r}"))
+            continue
+        if got != [level, level]:
+            fails.append(dict(args=dict(dimension=d, prepared_level=level), failed="many-level-digit", clause=f"sample_state_vector / sample_density_matrix report levels {got} for a qudit in level {level}"))
+    return dict(function="cirq-core/cirq/sim/{state_vector,density_matrix_utils,simulator,simulator_base}.py[digits of many-level qudits]", case="many-level-qudits",
+                bound="5 dimensions (5, 129, 200, 257, 300) x 3 simulators x terminal / mid-circuit measurement, basis states", cases=cases, distinct=cases, failures=len(fails), exhaustive=True, _fails=fails[:4])
+standin_many_level_qudits.prop = "C02"
+
+
+STANDINS = [standin_many_level_qudits, standin_born, standin_born_scenarios, standin_tableau_measure, standin_sampling_statistics, standin_keyed_channels, standin_sympy_conditions, standin_confusion_maps, standin_measurement_orders]
